@@ -16,6 +16,7 @@ import FordModel.Lemmas.DeclLine
 import FordModel.SortComp
 import FordModel.Lemmas.SortComp
 import FordModel.CharSel
+import FordModel.ProcLine
 import FordModel.Lemmas.TypeSpecChar
 import FordModel.Generated.C18
 namespace Ford.C18
@@ -765,5 +766,93 @@ theorem char_selector_unguarded_witness :
 
 example : Ford.CharSel.charSel charSelRules [chars! "len=3", chars! "kind=ck"] none none
     = .ok (some (chars! "3"), some (chars! "ck")) := rfl
+
+/-! ## round 6: the heading macro `proc_line` -/
+
+open Ford.ProcLine in
+/-- obligation on the regenerated macro: its output expressions (with their filters - the BIND name goes through
+    `|e`), the separators of its two `join` filters, the literal text between the expressions and the tests of its `if`
+    statements are the ones the model `ProcLine.procLine` lays out; the test of the RESULT clause has one of the two
+    known forms and the variant flag says which -/
+theorem proc_line_as_modelled :
+    (escapeSites.filter (fun s => s.scope == "proc_line")).map (fun s => (s.expr, s.filters)) = modelledSites ∧
+    procLineJoins = modelledJoins ∧ procLineData = modelledData ∧
+    procLineTests = modelledTests procLineResultCI := by decide
+
+open Ford.ProcLine in
+/-- "bind name ... shown literally and never changes the structure of the page": for every procedure and every BIND
+    name the reader sees the name as written, and the element skeleton of the heading (in any context that leaves the
+    tokenizer in a stable state) is that of the heading with an empty name -/
+theorem heading_bind_name_inert (ci proto : Bool) (p : Proc) (hb : p.bindC ≠ []) (ctx₂ : Str)
+    (h : (stateAfter (headText ci proto p ++ " bind(".toList)).stable = true) :
+    textContent (escape p.bindC) = p.bindC ∧
+    elements (procLine ci proto p ++ ctx₂) = elements (headText ci proto p ++ " bind(".toList ++ (')' :: ctx₂)) := by
+  refine ⟨escape_text _, ?_⟩
+  have hne : p.bindC.isEmpty = false := by cases hp : p.bindC <;> simp_all
+  have := escape_inert (headText ci proto p ++ " bind(".toList) (')' :: ctx₂) p.bindC h
+  simpa [procLine, hne, List.append_assoc] using this
+
+open Ford.ProcLine in
+/-- "result name": the heading has a RESULT clause exactly when the procedure is a function whose result is not
+    named like the function (names compared case-insensitively, as Fortran does), and then it shows the result's name -/
+theorem heading_result_clause (p : Proc) (r : Str) :
+    showsResult true p = some r ↔
+      (lower p.proctype = kwFunction ∧ p.retName = some r ∧ lower p.name ≠ lower r) := by
+  unfold showsResult
+  by_cases hf : lower p.proctype = kwFunction
+  · rw [if_pos hf]
+    cases hr : p.retName with
+    | none => simp
+    | some r' =>
+      by_cases hn : lower p.name = lower r'
+      · have hd : namesDiffer true p.name r' = false := by simp [namesDiffer, hn]
+        simp only [hd]
+        constructor
+        · intro h; cases h
+        · rintro ⟨_, h2, h3⟩
+          cases h2
+          exact absurd hn h3
+      · have hd : namesDiffer true p.name r' = true := by simp [namesDiffer, hn]
+        simp only [hd, if_true]
+        constructor
+        · intro h; cases h; exact ⟨hf, rfl, hn⟩
+        · rintro ⟨_, h2, _⟩; exact h2
+  · rw [if_neg hf]
+    constructor
+    · intro h; cases h
+    · rintro ⟨h1, _⟩; exact absurd h1 hf
+
+open Ford.ProcLine in
+/-- the other form of that test (names compared as written) invents a RESULT clause for `function f1(x)` whose
+    result is declared as `F1` (finding C18-result-clause-invented); the form of the code as it is does not -/
+theorem heading_result_case_witness :
+    let p : Proc := ⟨true, "public".toList, [], "Function".toList, "f1".toList, ["x".toList], some "F1".toList, []⟩
+    showsResult false p = some "F1".toList ∧ showsResult true p = none ∧
+    procLine true false p = "public  function f1(x)".toList := by decide +kernel
+
+open Ford.ProcLine Ford.ProcPrefix Ford.SortComp in
+/-- "argument list ... is textually the declaration", end to end over the three mechanisms: the names written between
+    the parentheses of the procedure statement (`procArgs`), carried by the collection the heading is assembled from,
+    through `sort_components` with any value of the option `sort`, into the markup of `proc_line`: the heading
+    contains `(` the names in the order of the statement, joined with `, ` `)` -/
+theorem heading_shows_statement_arguments (names : List Str) (h : ∀ n ∈ names, argOk n = true)
+    (o : Opt) (e : Entity) (p : Proc) (proto : Bool)
+    (he : headingArgs headingArgsCollection e = procArgs ('(' :: joinStr [',', ' '] names ++ [')']))
+    (hp : p.args = headingArgs headingArgsCollection (sortComponents sortedCollections o e)) :
+    ∃ pre post, procLine procLineResultCI proto p = pre ++ '(' :: joinStr [',', ' '] names ++ ')' :: post := by
+  rw [heading_args_any_sort_option, he, procArgs_names names h] at hp
+  refine ⟨(if p.moduleLevel && !proto then p.permission ++ [' '] else []) ++
+            joinStr [' '] p.attribs ++ ' ' :: lower p.proctype ++ ' ' :: p.name,
+          (match showsResult procLineResultCI p with
+           | some r => " result(".toList ++ r ++ [')']
+           | none => []) ++
+          (if p.bindC.isEmpty then [] else " bind(".toList ++ escape p.bindC ++ [')']), ?_⟩
+  simp [procLine, headText, hp, List.append_assoc]
+  all_goals rfl
+
+example : Ford.ProcLine.procLine true false
+    ⟨true, "public".toList, ["pure".toList], "Function".toList, "f".toList, ["b".toList, "a".toList], some "r".toList,
+     "c, name=\"x<b>&y\"".toList⟩
+    = "public pure function f(b, a) result(r) bind(c, name=&#34;x&lt;b&gt;&amp;y&#34;)".toList := by decide
 
 end Ford.C18
